@@ -8,6 +8,7 @@ CONSTANTS
   AssignImpl = "fixed"
   WM = 8
   ConstructSlots <- Slots3
+  Unbounded = FALSE
   Ops <- AllOps
   EmitAll = FALSE
 VIEW View
